@@ -140,6 +140,14 @@ ApplyClose2(e) ==
          IN [cs EXCEPT !.inst = [@ EXCEPT ![e.inst] = [@ EXCEPT !.closed = @ + 1, !.discarded = IsDiscard(e), !.failed = e.outcome = "err"]],
                        !.fails = IF e.outcome = "err" THEN @ \cup {[inst |-> e.inst, line |-> l, closer |-> e.th, cov |-> cov]} ELSE @]
 
+\* the scopes a Close answers for: those whose completion it waited for, and - through the watcher that closed
+\* such a scope on its behalf - those that watcher waited for in turn
+WaitedBy(th, since) == {w.scope : w \in {x \in cs.waited : x.th = th /\ x.line > since}}
+RECURSIVE RespScopes(_, _)
+RespScopes(S, since) ==
+    LET more == S \cup UNION {WaitedBy("w:" \o y, since) : y \in S}
+    IN IF more = S THEN S ELSE RespScopes(more, since)
+
 \* ---- ret ----------------------------------------------------------------------------------
 GuardsRet2(e) ==
     LET c == cs.curs[e.th]
@@ -174,8 +182,8 @@ GuardsRet2(e) ==
         {CG("close_reports_failures_in_its_subtree", {"C12"}, "disposal" \notin err =>
                \A f \in {x \in cs.fails : x.line > c.line} :
                    /\ f.closer # e.th
-                   /\ ~\E w \in cs.waited : /\ w.th = e.th /\ w.line > c.line /\ w.scope \in SNames
-                                             /\ cs.inst[f.inst].owner \in Sub(w.scope)),
+                   /\ (IsWatcher(f.closer) =>      \* closed by a context watcher: nobody else received that failure
+                        cs.inst[f.inst].owner \notin RespScopes(WaitedBy(e.th, c.line), c.line))),
          CG("close_error_only_if_something_failed", {"C12"}, err # {} =>
                /\ err \subseteq {"disposal"}
                /\ \E i \in Ids : cs.inst[i].failed /\ Covers(c, cs.inst[i].owner))}
